@@ -23,7 +23,7 @@ def handler (mode : String) (line : String) : String :=
           match caseOf? t with
           | some (cfg, ops, fd) =>
               let r := run cfg ops
-              toStr (traceT ((obsOfRun r).map canonStep) (if fd then some (feedOfRun r) else none))
+              toStr (traceT ((obsOfRun r).map canonStep) (orderOfRun r) (if fd then some (feedOfRun r) else none))
           | none => "(bad-case)"
   | "oracle" =>
       -- an ill-formed case carries no claim: accepted iff the implementation side refused it too
@@ -42,7 +42,7 @@ def handler (mode : String) (line : String) : String :=
             match caseOf? c with
             | some (cfg, ops, _) =>
                 match (parse os).bind traceOf? with
-                | some (tr, feed) => verdictStr (Spec.checkAll cfg ops tr feed)
+                | some (tr, order, feed) => verdictStr (Spec.checkAll cfg ops tr order feed)
                 | none => "fail step=0 clause=unparsable-observation"
             | none => badCase os
       | _ => "(bad-line)"
